@@ -249,13 +249,18 @@ def table_check(tier, rep_counts, p1s):
         pats = patterns(1 if tier == "quick" else 2) + (["/a/:p", "/:p/a", "/a.b/:r+", "/a/:r*"] if tier == "quick" else [])
         pths = paths(3)
         for p1, p2 in itertools.product(p1s, pats):
-            for methods in (("GET", "GET"), ("GET", "POST")):
+            for methods, calls in ((("GET", "GET"), 1), (("GET", "POST"), 1), (("GET", "GET"), 2)):
                 router = Router()
                 hit = []
                 r1 = Route("r1", methods[0], p1, lambda req: (hit.append((1, dict(req.matches))), Response(b"1", 201))[1])
                 r2 = Route("r2", methods[1], p2, lambda req: (hit.append((2, dict(req.matches))), Response(b"2", 202))[1])
                 r2.options = {}
-                router.registerRoutes([r1, r2])
+                if calls == 1:
+                    router.registerRoutes([r1, r2])
+                else:
+                    # two resources registered one after the other: the first registered route still wins
+                    router.registerRoutes([r1])
+                    router.registerRoutes([r2])
                 for path in pths:
                     v1, b1 = ref_match(p1, path)
                     v2, b2 = ref_match(p2, path)
@@ -275,7 +280,7 @@ def table_check(tier, rep_counts, p1s):
                         else:
                             expect = 404
                         if resp.status_code != expect:
-                            key = ("dispatch", "dispatch status %s, documented %s (%s)" % (resp.status_code, expect, "first-match/method" if expect != 404 else "must be 404"))
+                            key = ("dispatch", "dispatch status %s, documented %s (%s%s)" % (resp.status_code, expect, "first-match/method" if expect != 404 else "must be 404", ", routes registered by two registerRoutes calls" if calls == 2 else ""))
                             viols.setdefault(key, [0, {"p1": p1, "p2": p2, "methods": methods, "method": method, "path": path},
                                                    "table [%s %r, %s %r] request %s %r -> %s, expected %s" % (methods[0], p1, methods[1], p2, method, path, resp.status_code, expect)])[0] += 1
                         elif expect != 404:
